@@ -98,6 +98,12 @@ def main(c):
             filt=(False, True)),
         Cfg("w2", ["p1", "p2", "p3"][:2], ["a1", "a2", "b1", "c1"], {"A": [0, 1], "B": [0, 1], "C": [0]}, ["c1", "c3", "cL"],
             ["n1", "n2", "n3"], filt=(False, True)),
+        # focused behaviours (few operation kinds: long chains of one mechanism become likely): a peer that goes stale / LLGR-stale,
+        # comes back on a new session, re-announces part of what it had under the same or other path ids, and is purged
+        Cfg("w3", ["p1", "p2"], ["a1", "a2", "b1"], {"A": [0, 1], "B": [0]}, ["c1", "c3", "cN", "cL"], ["n1", "n2"], filt=(False, True),
+            ops=["insert", "remove", "markllgr", "dropllgr"]),
+        Cfg("w4", ["p1", "p2"], ["a1", "a2", "b1"], {"A": [0, 1], "B": [0]}, ["c1", "c2", "c3"], ["n1", "n2"], filt=(False, True),
+            ops=["insert", "remove", "markstale", "dropstale", "nhflip"]),
     ]
     if thorough:
         design += [
